@@ -106,7 +106,7 @@ class ExtractSpec(object):
 
 
 def extract(props=None):
-    repo = Repo(REPO_ROOT); base = TRSpec(repo); spec = ExtractSpec()
+    repo = Repo(); base = TRSpec(repo); spec = ExtractSpec()
     spec.role_call = base.role_call; base.inline_extract = True
     ex = lib.install(Exec(repo, spec)); base.install(ex)
     m, cls, node, info = repo.find(TR + '_extract_recorded_output')
@@ -184,7 +184,7 @@ class PostSpec(object):
 def post_metadata(props=None):
     """_add_post_operation_metadata(recording, metadata, extractor, duration) against the contract the operation wrapper assumes
     (specs.tr_base.TRSpec.c_post_metadata) -- plus C18: extractor failure / junk adds NO user key"""
-    repo = Repo(REPO_ROOT); base = TRSpec(repo); base.inline_post_metadata = True
+    repo = Repo(); base = TRSpec(repo); base.inline_post_metadata = True
     spec = PostSpec(base); ex = lib.install(Exec(repo, spec)); base.install(ex)
 
     def c_extract(ex_, s, args, kw, node_, star, dstar):
